@@ -19,7 +19,9 @@ META = {
     "rule": ("pairs: all ordered pairs of subsets of a universe of size 7 (quick) / 10 (thorough) under 4 "
              "order-preserving embeddings into uint32 (incl. 0 and 2^32-1), each through 3 kernels and 3 wrappers; "
              "random structured pairs up to 10^5 elements; wrapper None/copy conventions; multi-way union of 0-5 "
-             "arrays; in-situ calls from cube walks and set updates. Non-trivial: both operands non-empty and neither "
+             "arrays (also 17-100 arrays, chains); operands as strided / embedded / read-only / reversed / packed-record-field views, "
+             "views of one buffer, size-ladder lopsided pairs, buffers refilled in place between calls; 4-12 threads inside the "
+             "kernels at once on private operands (overlap counted); in-situ calls from cube walks and set updates. Non-trivial: both operands non-empty and neither "
              "contained in the other (pairs), >=2 non-empty inputs sharing an element (multi-way); distinct by content"),
     "require": {"quick": ["kernel_calls", "wrapper_calls", "many_calls", "insitu_workloads", "many:chain",
                           "presentation:strided", "presentation:view_in_buffer", "class:lopsided", "class:lopsided>32768",
